@@ -4,7 +4,10 @@ following the C++ order of inc_reference / dec_reference and the early returns.
 
 Handle variables hold `none` (no handle object), `some none` (a handle containing nullptr) or
 `some (some id)`.  Objects are numbered in creation order; `rc` is ReferenceCounter's
-`reference_count_`, `dead` counts how often the object's destructor ran.  Every access to an
+`reference_count_`, `dead` counts how often the handle type's **Deleter was invoked** for the
+object (`Deleter()(ptr_)` in `CountingPtr::dec_reference`; with the default deleter that is the
+`delete`, with `CountingPtrNoDelete` nothing observable happens, a custom deleter does what it
+likes — the model is the same for every deleter).  Every access to an
 object that has already been destroyed, and every failing `assert`, is an error (`Except`): the
 theorems in Props/C12 show that no error can arise and that the counts are exact.
 -/
@@ -55,7 +58,7 @@ def decRef (s : St) (p : Ptr) : Except String St :=
       if ob.dead ≠ 0 then throw "use after free: dec_reference on a destroyed object"
       else if ob.rc = 0 then throw "assert(reference_count_ > 0) fails"
       else if ob.rc - 1 = 0 then
-        -- delete: the destructor runs (~ReferenceCounter asserts the count is 0)
+        -- `Deleter()(ptr_)`: the deleter is invoked (default deleter: delete, ~ReferenceCounter asserts the count is 0)
         pure { s with o := s.o.set i { rc := 0, dead := ob.dead + 1 } }
       else pure { s with o := s.o.set i { ob with rc := ob.rc - 1 } }
 
@@ -151,6 +154,12 @@ def step (s : St) : Op → Except String St
       let s ← decRef s p
       pure (s.setH h none)
   | .objassign _ _ => pure s    -- `ReferenceCounter& operator=(const ReferenceCounter&) { return *this; }`
+
+/-- the objects whose deleter was invoked between state `s` and state `s'` (one operation):
+    the event that the harness observes per release path -/
+def deleterCalls (s s' : St) : List Nat :=
+  (List.range s'.o.length).filter fun i =>
+    ((s.o[i]?).map (·.dead)).getD 0 < ((s'.o[i]?).map (·.dead)).getD 0
 
 /-- number of handle variables pointing to object `i` -/
 def St.handlesTo (s : St) (i : Nat) : Nat := s.h.count (some (some i))
